@@ -373,7 +373,8 @@ def consistent(value, query, world):
     return True
 
 
-def unsound_worlds(lv, meta, member, own, op, objects, extra=None):
+def unsound_worlds(lv, meta, member, own, op, objects, extra=None,
+                   result=None):
     """objects: {object text -> slot number | fixed world}; every tribool
     variable of a leaf must ask a known query about one of them.  `extra`
     (optional) maps the boolean atoms of a leaf to the world of one more
@@ -391,7 +392,7 @@ def unsound_worlds(lv, meta, member, own, op, objects, extra=None):
         ok = True
         bools = {k: v for k, v in a.items() if k.startswith("bool:")}
         first = None
-        if bools:
+        if bools and result is None:
             first = extra(bools) if extra else None
             if first is None:
                 continue
@@ -414,9 +415,19 @@ def unsound_worlds(lv, meta, member, own, op, objects, extra=None):
                        for s, q, v in cons):
                 continue
             seq = ([first] if first else []) + list(ws)
-            res = {seq[0]}
-            for w in seq[1:]:
-                res = set().union(*[op(x, w) for x in res]) if res else set()
+            if result is not None:
+                # the caller computes the node's attainable worlds from the
+                # boolean atoms (signs of numeric coefficients) and the
+                # operand worlds; None = cannot interpret this leaf
+                rr = result(bools, list(ws))
+                if rr is None:
+                    break
+                seq, res = rr
+            else:
+                res = {seq[0]}
+                for w in seq[1:]:
+                    res = set().union(*[op(x, w) for x in res]) \
+                        if res else set()
             bad = [w for w in res if q_own(w) != (r == "T")]
             sg = tuple(w[0] for w in seq)
             if bad and sg not in sigs:
